@@ -13,6 +13,7 @@
  (5)-(6) centred reduction, exact field arithmetic and strict decompression are C12 / C07 / C03.
 Not decided: that s1 = c - s2*h is computed correctly by the NTT for all inputs (C11 covers tables/wiring)."""
 from fv.absint import St, Pt, Ag, I, Sq, En, Md, Fl
+from fv.mir import kind_of
 from fv.oracle import SPEC, Q, derived, pqclean
 from .common import Session, record_obligations
 from . import signalg, c03, c14, effects, skeleton
@@ -101,6 +102,23 @@ def run_verify_labelled(S, N, quick1024=False):
         elif ev == "sum" and fr.inst is inst:
             stt = kw["st"]
             sums.append((stt.itv[kw["item"].vid], set(stt.taint.get(kw["item"].vid, set())), stt.itv[kw["n"].vid]))
+        elif ev == "assign" and fr.inst is inst:
+            # the same norm written as accumulation loops: squares `x * x` computed in verify's own body (one entry per
+            # distinct term; the number of terms is then not observed: None)
+            try:
+                stmt = fr.body.blocks[kw["bb"]]["statements"][kw["si"]]
+                k_, v_ = kind_of(stmt["kind"])
+                rk, rv = kind_of(v_[1])
+                if rk in ("BinaryOp", "CheckedBinaryOp") and rv[0] in ("Mul", "MulUnchecked"):
+                    stt = kw["st"]
+                    x_, y_ = S.E.operand(stt, fr, rv[1]), S.E.operand(stt, fr, rv[2])
+                    if type(x_) is I and type(y_) is I and x_.vid == y_.vid:
+                        lo_, hi_ = stt.itv[x_.vid]
+                        ent = ((0 if lo_ <= 0 <= hi_ else min(lo_ * lo_, hi_ * hi_), max(lo_ * lo_, hi_ * hi_)), set(stt.taint.get(x_.vid, set())), None)
+                        if ent not in sums:
+                            sums.append(ent)
+            except Exception:
+                pass
         elif ev == "enter" and fr.inst is inst and kw["callee"].name == "falcon_rust::encoding::decompress":
             a = kw["args"]
             dec.append((a[0], kw["st"].const(a[1]) if type(a[1]) is I else None))
@@ -169,11 +187,11 @@ def run(R):
         s2sum = [s for s in sums if s[1] and s[1] <= {"s"}]
         s1sum = [s for s in sums if need <= s[1]]
         lim2 = (12159) ** 2
-        R.check(len(s2sum) == 1 and s2sum[0][0][0] >= 0 and s2sum[0][0][1] <= lim2 and s2sum[0][2] == (N, N), "C02-ingr", vsite + " ||s2||^2",
+        R.check(len(s2sum) == 1 and s2sum[0][0][0] >= 0 and s2sum[0][0][1] <= lim2 and s2sum[0][2] in ((N, N), None), "C02-ingr", vsite + " ||s2||^2",
                 f"one sum over {N} squares of values that depend on the signature body only, each in {s2sum[0][0] if s2sum else '?'}",
                 f"sums over signature-only terms: {[(s[0], s[2]) for s in s2sum]} (expected exactly one, {N} terms, squares of decoded coefficients)", key=f"s2|{N}")
         lim1 = (Q // 2) ** 2
-        R.check(len(s1sum) == 1 and s1sum[0][0][0] >= 0 and s1sum[0][0][1] <= lim1 and s1sum[0][2] == (N, N), "C02-ingr", vsite + " ||s1||^2",
+        R.check(len(s1sum) == 1 and s1sum[0][0][0] >= 0 and s1sum[0][0][1] <= lim1 and s1sum[0][2] in ((N, N), None), "C02-ingr", vsite + " ||s1||^2",
                 f"one sum over {N} squares of centred representatives (each at most {lim1}) that depend on all four inputs",
                 f"sums over terms depending on all inputs: {[(s[0], sorted(map(str, s[1])), s[2]) for s in s1sum]} (expected one, {N} terms, each term <= {lim1} = 6144^2)", key=f"s1|{N}")
         R.check(len(sums) == 2, "C02-ingr", vsite, "exactly two sums feed the norm", f"{len(sums)} sums observed", key=f"nsums|{N}")
